@@ -1,0 +1,19 @@
+//go:build verif
+
+// Machine-checked contracts for package l4tls (comment-only; read by /verif/gvc).
+
+package l4tls
+
+// The ClientHello records kept for a connection by the tls handler (used by the proxy handler to
+// shape its upstream TLS config): reading them changes nothing.
+//@ func GetClientHelloInfos(cx *layer4.Connection) (hellos []ClientHelloInfo)
+//@ requires wfcx(cx)
+//@ requires[inv] isnil(ctxval(cx.Context, layer4.VarsCtxKey).(map[string]any)["tls_client_hellos"]) || istype(ctxval(cx.Context, layer4.VarsCtxKey).(map[string]any)["tls_client_hellos"], []ClientHelloInfo)
+//@ safety C03
+//@ assigns[C03] nothing
+
+// FillTLSClientConfig only writes the config it is given.
+//@ func (chi ClientHelloInfo) FillTLSClientConfig(cfg *tls.Config)
+//@ requires cfg != nil
+//@ safety C03
+//@ assigns[C03] all(cfg)
